@@ -18,14 +18,30 @@ class FsError(OSError):
     pass
 
 
+class _Inode:
+    __slots__ = ('data',)
+
+    def __init__(self, data=b''):
+        self.data = data
+
+
+class _Files(dict):
+    """path -> bytes view over inodes (kept as a plain mapping for the checks that inspect or preset file contents)."""
+
+
 class SimFS:
     def __init__(self, raw_write_size: int = 8192):
-        self.files = {}           # path -> bytes (durable, OS level)
+        self.inodes = {}          # path -> _Inode (durable, OS level); an open handle keeps its inode across renames
         self.raw_write_size = max(1, raw_write_size)
         self.boundary = 0         # counter of durable mutations since reset_boundaries()
         self.crash_at = None
         self.log = []
         self.fail_replace = False
+
+    # dict-like view used by the checks: fs.files[path] -> bytes
+    @property
+    def files(self):
+        return _FilesView(self)
 
     # ---- boundary accounting
     def reset_boundaries(self):
@@ -51,50 +67,53 @@ class SimFS:
         return nbytes
 
     # ---- durable operations
-    def _raw_write(self, path, data: bytes):
+    def _raw_write(self, inode, path, data: bytes):
         allowed = self._tick('write', path, len(data))
         if isinstance(allowed, tuple):
             n = allowed[1]
-            self.files[path] = self.files.get(path, b'') + data[:n]
+            inode.data = inode.data + data[:n]
             raise Crash()
-        self.files[path] = self.files.get(path, b'') + data
+        inode.data = inode.data + data
 
     def open(self, path, mode='r', *a, **kw):
         path = str(path)
         if 'r' in mode and '+' not in mode:
-            if path not in self.files:
+            if path not in self.inodes:
                 raise FileNotFoundError(2, 'No such file or directory', path)
-            data = self.files[path]
+            data = self.inodes[path].data
             return io.BytesIO(data) if 'b' in mode else io.StringIO(data.decode('utf-8'))
         if 'w' in mode:
             self._tick('truncate', path)
-            self.files[path] = b''
-            return SimWriteFile(self, path, binary='b' in mode)
+            ino = self.inodes.get(path)
+            if ino is None:
+                ino = self.inodes[path] = _Inode()
+            ino.data = b''
+            return SimWriteFile(self, path, ino, binary='b' in mode)
         raise FsError('mode %r not modelled' % mode)
 
     def replace(self, src, dst):
-        if src not in self.files:
+        if src not in self.inodes:
             raise FileNotFoundError(2, 'No such file or directory', src)
         self._tick('rename', dst)
-        self.files[dst] = self.files.pop(src)
+        self.inodes[dst] = self.inodes.pop(src)
 
     def remove(self, path):
-        if path not in self.files:
+        if path not in self.inodes:
             raise FileNotFoundError(2, 'No such file or directory', path)
         self._tick('remove', path)
-        del self.files[path]
+        del self.inodes[path]
 
     def isfile(self, path):
-        return str(path) in self.files
+        return str(path) in self.inodes
 
     def exists(self, path):
-        return str(path) in self.files
+        return str(path) in self.inodes
 
     def snapshot(self):
-        return dict(self.files)
+        return {p: i.data for p, i in self.inodes.items()}
 
     def restore(self, snap):
-        self.files = dict(snap)
+        self.inodes = {p: _Inode(d) for p, d in snap.items()}
 
     # ---- shims handed to the code under test
     def os_shim(self):
@@ -116,10 +135,32 @@ class SimFS:
         return _Os
 
 
+class _FilesView:
+    def __init__(self, fs):
+        self.fs = fs
+
+    def __getitem__(self, p):
+        return self.fs.inodes[p].data
+
+    def __setitem__(self, p, data):
+        self.fs.inodes[p] = _Inode(bytes(data))
+
+    def __contains__(self, p):
+        return p in self.fs.inodes
+
+    def get(self, p, default=None):
+        i = self.fs.inodes.get(p)
+        return default if i is None else i.data
+
+    def __delitem__(self, p):
+        del self.fs.inodes[p]
+
+
 class SimWriteFile:
-    def __init__(self, fs: SimFS, path: str, binary: bool):
+    def __init__(self, fs: SimFS, path: str, inode, binary: bool):
         self.fs = fs
         self.path = path
+        self.inode = inode
         self.binary = binary
         self.buf = b''
         self.closed = False
@@ -132,13 +173,13 @@ class SimWriteFile:
         n = self.fs.raw_write_size
         while len(self.buf) >= n:
             chunk, self.buf = self.buf[:n], self.buf[n:]
-            self.fs._raw_write(self.path, chunk)
+            self.fs._raw_write(self.inode, self.path, chunk)
         return len(s)
 
     def flush(self):
         if self.buf:
             chunk, self.buf = self.buf, b''
-            self.fs._raw_write(self.path, chunk)
+            self.fs._raw_write(self.inode, self.path, chunk)
 
     def close(self):
         if not self.closed:
